@@ -377,10 +377,23 @@ pub fn run_until(mut done: impl FnMut() -> bool, max_steps: u64, max_virtual: Du
                 }
             }
         });
-        if std::env::var("VERIF_E3_SWEEP").is_ok() {
+        if let Some(at) = std::env::var("VERIF_E3_SWEEP_AT").ok().and_then(|v| v.parse::<u64>().ok()) {
+            // debugging aid: once virtual time has passed `at` seconds, poll every task once although none was woken
+            if with(|c| c.now > Duration::from_secs(at) && !c.swept) {
+                with(|c| {
+                    c.swept = true;
+                    for t in c.tasks.iter() {
+                        if t.fut.is_some() {
+                            t.flag.store(true, Ordering::SeqCst);
+                        }
+                    }
+                });
+                continue;
+            }
+        } else if std::env::var("VERIF_E3_SWEEP").is_ok() {
             // debugging aid: before a clock jump of more than a second, poll every task once although none
             // was woken; if that changes the outcome a wake-up was lost somewhere
-            let jump = with(|c| ev.map(|(_, (at, _))| at.saturating_sub(c.now) > Duration::from_secs(1)).unwrap_or(false) && !c.swept);
+            let jump = with(|c| ev.map(|(_, (at, _))| at.saturating_sub(c.now) > Duration::from_secs(std::env::var("VERIF_E3_SWEEP").ok().and_then(|v| v.parse().ok()).unwrap_or(1))).unwrap_or(false) && !c.swept);
             if jump {
                 with(|c| {
                     c.swept = true;
